@@ -321,6 +321,14 @@ func (p *pgen) goal(depth, from int, allowCut bool) *G {
 				if r.coin(0.3) {
 					g = gc("^", gv(r.intn(p.nvars)), g)
 				}
+				if r.coin(0.3) {
+					// the (quantified) goal, or its inner part, reaches bagof through a bound variable
+					mv := gv(p.nvars + r.intn(2))
+					if g.K == 'c' && g.S == "^" && r.coin(0.5) {
+						return gc(",", gc("=", mv, g.Args[1]), gc("bagof", p.term(1), gc("^", g.Args[0], mv), gv(r.intn(p.nvars))))
+					}
+					return gc(",", gc("=", mv, g), gc("bagof", p.term(1), mv, gv(r.intn(p.nvars))))
+				}
 				return gc("bagof", p.term(1), g, gv(r.intn(p.nvars)))
 			}
 		case 19:
